@@ -53,7 +53,9 @@ C09(r) ==
     whatif_sets      |-> \A k \in DOMAIN r.rw : r.rw[k].ok => PathSets(r.nodes, Range(r.rw[k].edges), r.rw[k].p),
     whatif_weights_kept |-> \A k \in DOMAIN r.rw : r.rw[k].ok =>
                             { <<x[1], x[2], x[3]>> : x \in Range(r.rw[k].after) } = { <<e.u, e.v, e.gw>> : e \in Range(r.rw[k].edges) },
-    whatif_runs      |-> \A k \in DOMAIN r.rw : r.rw[k].ok ]
+    whatif_runs      |-> \A k \in DOMAIN r.rw : r.rw[k].ok,
+    \* call history: the first graph read again after the what-if copies were analysed still reports ITS path and sets
+    sets_after_other_graphs |-> r.p2.path = r.p.path /\ PathSets(r.nodes, E, r.p2) ]
 
 \* ---- C10
 CritEdges(r) == { e \in Edg(r) : \E x \in Range(r.p.pedges) : x[1] = e.u /\ x[2] = e.v }
